@@ -179,7 +179,9 @@ func Drive(id, tier string, seed int64, root, exe, raceExe string) int {
 			cmd.Stdout = logf
 			cmd.Stderr = logf
 			cmd.Dir = root
-			cmd.Env = append(os.Environ(), "VERIF_ROOT="+root)
+			// the library clock of every second worker reports its instants in a non-UTC zone: which zone a time.Time
+			// carries must never matter to the library (nor to the monitors)
+			cmd.Env = append(os.Environ(), "VERIF_ROOT="+root, "VERIF_CLOCK_ZONE="+[]string{"", "-08:00", "", "+05:30"}[i%4])
 			if spec.Env != nil {
 				cmd.Env = append(cmd.Env, spec.Env(i, work)...)
 			}
